@@ -11,6 +11,7 @@ import tempfile
 
 from .. import tt
 
+PYTHON_O_STRIDE = {"quick": 4, "thorough": 2}      # every n-th case is repeated in an interpreter started with -O
 RULE = ("(CNF F, transformation, parameters): all CNFs with <= 2 variables and <= 2 clauses of width <= 2 (incl. empty formula, "
         "empty clause, repeated and opposite literals, an unused trailing variable) plus seeded CNFs up to 4 variables / 5 clauses; "
         "xor, or, maj, eq, neq, one with arity 1..3(4), exact/atleast/atmost/anybut N <= 4 with every K in -1..N+1, ite, lift k <= 3, "
